@@ -154,6 +154,13 @@ def _std_transfer(I, fr, t, c, pth):
                 return True
         return False
 
+    # ------------------------------------------------------------------ one-element / empty / repeated iterators
+    if d.startswith('std::iter::once') and len(args) == 1 and not d.startswith('std::iter::once_with'):
+        fr.storev(dest, SliceIt([fr.operand(args[0])], 0))
+        return True
+    if d.startswith('std::iter::empty') and not args:
+        fr.storev(dest, SliceIt([], 0))
+        return True
     # ------------------------------------------------------------------ equality of fully known Option<integer> / integer values
     if trait == 'std::cmp::PartialEq' and name in ('eq', 'ne') and len(args) == 2:
         def known(v):
@@ -386,8 +393,18 @@ def _std_transfer(I, fr, t, c, pth):
         if name == 'count' and len(args) == 1:
             itv = fr.operand(args[0])
             if is_iter(itv):
-                fr.storev(dest, Int(len(drain(I, itv, where))))
-                return True
+                try:
+                    fr.storev(dest, Int(len(drain(I, itv, where))))
+                    return True
+                except NotDerivable:
+                    # an undecided test in a filtering adaptor: the count is some number up to the length of what it filters
+                    if isinstance(itv, AdaptIt) and itv.kind in ('take_while', 'filter', 'skip_while') and is_iter(itv.inner):
+                        try:
+                            n_ = len(drain(I, itv.inner, where))
+                        except NotDerivable:
+                            return False
+                        return I.fork_values(fr, t, pth, [Int(k_) for k_ in range(n_ + 1)], ('count', where))
+                    return False
             return False
         if name == 'fold' and len(args) == 3:
             itv = fr.operand(args[0])
